@@ -312,9 +312,11 @@ bool ManifestParser::ParseEdge(string* err) {
   if (!ExpectToken(Lexer::NEWLINE, err))
     return false;
 
-  // Bindings on edges are rare, so allocate per-edge envs only when needed.
+  // Every edge gets its own scope, also one without bindings: were the file's
+  // scope itself the edge's scope, BindingEnv::LookupWithFallback() would find
+  // a file-level variable before the rule's binding of the same name.
   bool has_indent_token = lexer_.PeekToken(Lexer::INDENT);
-  BindingEnv* env = has_indent_token ? new BindingEnv(env_) : env_;
+  BindingEnv* env = new BindingEnv(env_);
   while (has_indent_token) {
     string key;
     EvalString val;
